@@ -193,6 +193,21 @@ pub fn run(out: &mut Out, thorough: bool, seed: u64, _extra: &[String]) {
                 if refused(std::panic::AssertUnwindSafe(|| f())) { out.raw(&format!("!OK refuse {} wrong-representation {} # refuse-repr", sn, opn)); } else { out.raw(&format!("!FAIL refuse {} wrong-representation {} :: operand in a representation the operation does not accept was computed on # refuse-repr", sn, opn)); }
             }
         }
+        if scheme != SchemeType::BFV {
+            // CKKS / BGV work in NTT form: a (valid) coefficient-form copy must be refused by every operation that needs NTT form, alone or mixed
+            let cfm = ev.transform_from_ntt_new(&c1);
+            // (multiply_plain accepts every combination of representations by design: it converts)
+            for (opn, f) in [("multiply-coef-ntt", Box::new(|| { let _ = ev.multiply_new(&cfm, &c2); }) as Box<dyn Fn() + '_>), ("multiply-ntt-coef", Box::new(|| { let _ = ev.multiply_new(&c2, &cfm); })),
+                             ("multiply-coef-coef", Box::new(|| { let _ = ev.multiply_new(&cfm, &cfm); })), ("square-coef", Box::new(|| { let _ = ev.square_new(&cfm); })),
+                             ("multiply-inplace-ntt-coef", Box::new(|| { let mut x = c2.clone(); ev.multiply_inplace(&mut x, &cfm); })),
+                             ("add-mixed", Box::new(|| { let _ = ev.add_new(&cfm, &c2); })), ("sub-mixed", Box::new(|| { let _ = ev.sub_new(&c2, &cfm); })),
+                             ("mod_switch-coef", Box::new(|| { let _ = ev.mod_switch_to_next_new(&cfm); })),
+                             ("decrypt-coef", Box::new(|| { let _ = s.decryptor.decrypt_new(&cfm); })), ("from_ntt-twice", Box::new(|| { let _ = ev.transform_from_ntt_new(&cfm); }))] {
+                if refused(std::panic::AssertUnwindSafe(|| f())) { out.raw(&format!("!OK refuse {} wrong-representation {} # refuse-repr", sn, opn)); } else { out.raw(&format!("!FAIL refuse {} wrong-representation {} :: operand in a representation the operation does not accept was computed on # refuse-repr", sn, opn)); }
+            }
+            // the refused in-place call must leave its operand untouched
+            { let mut x = c2.clone(); let _ = std::panic::catch_unwind(std::panic::AssertUnwindSafe(|| ev.multiply_inplace(&mut x, &cfm))); if !ct_eq(&x, &c2) { out.raw(&format!("!FAIL refuse {} wrong-representation multiply-inplace :: the refused operation modified its in-place operand # refuse-repr", sn)); } }
+        }
         {
             let seeded = s.encryptor.encrypt_symmetric_new(&plain);
             if seeded.contains_seed() {
